@@ -101,7 +101,8 @@ def work(unit):
     if kind == "binary":
         fa, fb = parse_fmt(unit["fa"]), parse_fmt(unit["fb"])
         order = len(fa.modes)
-        for dims in itertools.product(unit["dim_values"], repeat=order):
+        for dims in (unit.get("dims_list") or itertools.product(unit["dim_values"], repeat=order)):
+            dims = tuple(dims)
             cells = list(itertools.product(*[range(d) for d in dims]))
             subs = list(subsets(cells, maxn))
             for sa in subs:
@@ -145,7 +146,8 @@ def work(unit):
     elif kind == "scalar":
         fa = parse_fmt(unit["fa"])
         order = len(fa.modes)
-        for dims in itertools.product(unit["dim_values"], repeat=order):
+        for dims in (unit.get("dims_list") or itertools.product(unit["dim_values"], repeat=order)):
+            dims = tuple(dims)
             cells = list(itertools.product(*[range(d) for d in dims]))
             allc = cells
             for sa in subsets(cells, maxn):
@@ -259,6 +261,15 @@ def run(tier, seed):
             for fb in fs:
                 units.append({"kind": "binary", "fa": fmt_str(fa), "fb": fmt_str(fb), "dim_values": dv, "max_cells": mc})
             units.append({"kind": "scalar", "fa": fmt_str(fa), "dim_values": dv, "max_cells": 4 if o <= 2 else 2})
+    if tier == "quick":
+        # order 3 in the quick tier: every format pair, one non-cubic dimension vector, <= 1 stored cell each
+        fs = all_formats(3)
+        for fa in fs:
+            for fb in fs:
+                units.append({"kind": "binary", "fa": fmt_str(fa), "fb": fmt_str(fb), "dim_values": (2,),
+                              "dims_list": [(2, 1, 2)], "max_cells": 1})
+            units.append({"kind": "scalar", "fa": fmt_str(fa), "dim_values": (2,), "dims_list": [(2, 1, 2), (1, 2, 2)],
+                          "max_cells": 2})
     for oa, ob in [(1, 1), (2, 1), (1, 2), (2, 2)]:
         for fa in all_formats(oa):
             for fb in all_formats(ob):
@@ -282,7 +293,8 @@ def run(tier, seed):
     return run.finish(
         states=total, transitions=total, traces_validated=run.counters["results correct"], evaluations=total,
         distinct_nontrivial=run.counters["results correct"],
-        rule=f"every ordered pair of formats of order 0..{max_order} (all modes x all orderings) x + - * x every "
+        rule=f"every ordered pair of formats of order 0..{max_order} (all modes x all orderings; quick adds every order-3 "
+             "pair on the dimension vector (2,1,2) with <= 1 stored cell per operand) x + - * x every "
              "dimension vector over {0,1,2} x every pair of stored sets within the cell bound; one-component dimension "
              "mismatches in both directions; a Python number from {0,1,-2,2.5,True} on either side; @ for every format "
              "pair of orders (1,1),(2,1),(1,2),(2,2) with matching (2,1,0) and mismatching inner dimensions; "
